@@ -51,6 +51,8 @@ type zoneGen struct {
 	// its explicit target ("host HTTPS 1 host" instead of ".")
 	self string
 	huge bool // an address RRset of more than 32 KiB was generated
+	// upper: service targets are written with upper-case letters (T1.Example)
+	upper bool
 }
 
 func (g *zoneGen) ip4() net.IP {
@@ -107,6 +109,10 @@ func (g *zoneGen) service(owner, label string) {
 			h.Target = "t2.example"
 		case 3:
 			h.Target = "t3-noaddr.example"
+		}
+		if g.upper && tk >= 1 && tk <= 3 {
+			// a TargetName is spelled however the zone file spelled it (case is preserved on the wire)
+			h.Target = strings.ToUpper(h.Target[:1]) + h.Target[1:len(h.Target)-7] + "Example"
 		}
 		if rapid.Bool().Draw(t, label+"_port") {
 			h.Port = uint16(rapid.SampledFrom([]int{443, 8443, 9443}).Draw(t, label+"_portv"))
@@ -276,6 +282,9 @@ func TestC14(t *testing.T) {
 		p := dnsfx.ParseInput(input)
 		z := dnsfx.NewZone()
 		g := &zoneGen{t: t, z: z, ttl: func() uint32 { return 60 }, self: host}
+		if g.upper = rapid.IntRange(0, 3).Draw(t, "upper_case_targets") == 0; g.upper {
+			cl = append(cl, "upper_case_target_names")
+		}
 		svcb := host
 		if !expectInvalid && kind != 0 {
 			if p.Port != 80 && p.Port != 443 {
